@@ -66,6 +66,7 @@ def run_schedules(ctx, res, nsteps):
     random graphs; a policy that only holds when the receiver happens to see all timestamps early fails here."""
     tasks = [dict(fn="tasks_rt:async_schedules", args=dict(seed=ctx.rng.randrange(1 << 30), nsteps=nsteps, family="tie_advance"), timeout=400) for _ in range(ctx.n(3, 8))]
     tasks += [dict(fn="tasks_rt:async_schedules", args=dict(seed=ctx.rng.randrange(1 << 30), nsteps=nsteps, tie=(i % 2 == 1)), timeout=400) for i in range(ctx.n(2, 10))]
+    tasks += [dict(fn="tasks_rt:async_schedules", args=dict(seed=ctx.rng.randrange(1 << 30), nsteps=nsteps, family="fifo_blocking"), timeout=400) for _ in range(ctx.n(1, 4))]
     for t, r in ac.pool_cases(tasks, res, timeout=400):
         spec = r["spec"]
         for v in r["variants"]:
